@@ -340,6 +340,84 @@ func c12cJobs(thorough bool) []c12cJob {
 	return js
 }
 
+// c12cCallbackBody (K14): three multi-instrument callbacks, each observing its own observable
+// counter, registered in order; the first one takes time. One thread collects the delta reader while
+// another unregisters the SECOND callback. The first and the third stay registered throughout: every
+// collection reports both, each with this cycle's observation minus the preceding cycle's -- no
+// measurement of a bystander is lost or reported twice because a neighbour left at that moment.
+func c12cCallbackBody(res *string) func(x *sched.Exec) {
+	return func(x *sched.Exec) {
+		ctx := context.Background()
+		delta := NewManualReader(WithTemporalitySelector(func(InstrumentKind) metricdata.Temporality { return metricdata.DeltaTemporality }))
+		mp := NewMeterProvider(WithReader(delta))
+		meter := mp.Meter("m")
+		var calls [3]int64
+		var regs [3]api.Registration
+		for i := 0; i < 3; i++ {
+			oc, err := meter.Int64ObservableCounter(fmt.Sprintf("oc%d", i+1))
+			if err != nil {
+				x.Fail("C12|conc|callbacks|setup", "%v", err)
+				return
+			}
+			regs[i], err = meter.RegisterCallback(func(_ context.Context, o api.Observer) error {
+				if i == 0 {
+					sched.Yield("slow callback", &calls)
+				}
+				calls[i]++
+				o.ObserveInt64(oc, 10*calls[i]*int64(i+1))
+				return nil
+			}, oc)
+			if err != nil {
+				x.Fail("C12|conc|callbacks|setup", "%v", err)
+				return
+			}
+		}
+		var prev [3]int64
+		var out []string
+		collect := func(label string) {
+			var rm metricdata.ResourceMetrics
+			before := calls
+			if err := delta.Collect(ctx, &rm); err != nil {
+				x.Fail("C12|conc|callbacks|collect-error", "%s: Collect: %v", label, err)
+				return
+			}
+			got := map[string]int64{}
+			for _, sm := range rm.ScopeMetrics {
+				for _, m := range sm.Metrics {
+					if d, ok := m.Data.(metricdata.Sum[int64]); ok {
+						for _, dp := range d.DataPoints {
+							got[m.Name] += dp.Value
+						}
+					}
+				}
+			}
+			for _, i := range []int{0, 2} {
+				name := fmt.Sprintf("oc%d", i+1)
+				obs := 10 * calls[i] * int64(i+1)
+				if calls[i] != before[i]+1 {
+					x.Fail("C12|conc|callbacks|registered callback not run exactly once in a collection", "%s: callback %d ran %d times", label, i+1, calls[i]-before[i])
+					continue
+				}
+				v, ok := got[name]
+				if !ok || v != obs-prev[i] {
+					x.Fail("C12|conc|callbacks|bystander's observation lost or repeated", "%s: %s reported %d (present=%v), observed %d now and %d in the preceding cycle (callback 2 was being unregistered meanwhile)", label, name, v, ok, obs, prev[i])
+				}
+				prev[i] = obs
+			}
+			out = append(out, fmt.Sprint(label, got))
+		}
+		var wg vsync.WaitGroup
+		wg.Add(2)
+		sched.Go(func() { defer wg.Done(); collect("concurrent collection") })
+		sched.Go(func() { defer wg.Done(); _ = regs[1].Unregister() })
+		wg.Wait()
+		collect("second collection")
+		collect("third collection")
+		*res = fmt.Sprint(out)
+		_ = mp.Shutdown(ctx)
+	}
+}
+
 func TestVerifC12Conc(t *testing.T) {
 	thorough := enum.Start("C12", "probe").Thorough()
 	all := c12cJobs(thorough)
@@ -358,10 +436,20 @@ func TestVerifC12Conc(t *testing.T) {
 	for n := range createJobs {
 		names = append(names, n)
 	}
+	cbJob := fmt.Sprintf("K14-collect-vs-unregister-of-the-middle-callback/P%d", pc)
+	names = append(names, cbJob)
 	sort.Strings(names[len(all):])
 	enum.Jobs(names, func(job string) {
 		r := enum.Start("C12", "conc")
 		defer r.Finish()
+		if job == cbJob {
+			r.Bound("conc/callbacks_max_preemptions", pc)
+			var res string
+			st := sched.Explore(r, sched.Config{Name: job, MaxP: pc, MaxE: 0, MaxSteps: 6000, Body: c12cCallbackBody(&res),
+				Outcome: func(*sched.Exec) string { return res }})
+			t.Logf("%s: execs=%d states=%d outcomes=%d complete=%v keys=%v", job, st.Execs, st.States, len(st.Outcomes), st.Complete, r.Keys())
+			return
+		}
 		if mode, ok := createJobs[job]; ok {
 			r.Bound("conc/creation_max_preemptions", pc)
 			var res string
